@@ -171,12 +171,27 @@ func formatSliceExpr(ctx *formatCtx, v *ast.SliceExpr) {
 func formatCallExpr(ctx *formatCtx, v *ast.CallExpr) {
 	formatExpr(ctx, v.Fun, &v.Fun)
 	fncallStartingLowerCase(v)
-	for i, arg := range v.Args {
-		if fn, ok := arg.(*ast.FuncLit); ok {
-			funcLitToLambdaExpr(fn, &v.Args[i])
+	if !isUntypedArgsBuiltin(ctx, v.Fun) {
+		for i, arg := range v.Args {
+			if fn, ok := arg.(*ast.FuncLit); ok {
+				funcLitToLambdaExpr(fn, &v.Args[i])
+			}
 		}
 	}
 	formatExprs(ctx, v.Args)
+}
+
+// isUntypedArgsBuiltin reports whether fun is a Go builtin whose parameters give a lambda no function type
+// to take (append(fs, func(x int) int {...}) must keep its function literal).
+func isUntypedArgsBuiltin(ctx *formatCtx, fun ast.Expr) bool {
+	if id, ok := fun.(*ast.Ident); ok {
+		switch id.Name {
+		case "append", "panic", "print", "println":
+			_, o := ctx.scope.LookupParent(id.Name, token.NoPos)
+			return o == nil
+		}
+	}
+	return false
 }
 
 func formatSelectorExpr(ctx *formatCtx, v *ast.SelectorExpr, ref *ast.Expr) {
